@@ -286,10 +286,19 @@ pub fn render(items: &[Item]) -> Rendered {
                 w.ln(&s);
             }
             Item::Fixture(f) => {
-                let ind = if f.in_class { "    " } else { "" };
+                // some fixtures (a function of the name) are defined inside a module-level `if` / `try` block:
+                // version-dependent or optional fixtures of real conftest files
+                // (switched off: the repository's own suite pins "fixtures inside an if block are not detected" as a known
+                // limitation - tests/test_fixtures.rs::test_fixture_inside_if_block_not_supported - so neither a repair nor
+                // an alarm is possible here; DESIGN.md §17.3)
+                let guarded = false && !f.in_class && f.style != 2 && f.func.bytes().map(|b| b as usize).sum::<usize>() % 11 == 0;
+                let ind = if f.in_class || guarded { "    " } else { "" };
                 if f.in_class {
                     w.ln("");
                     w.ln(&format!("class TestFx_{}:", f.func));
+                } else if guarded {
+                    w.ln("");
+                    w.ln(if f.func.len() % 2 == 0 { "if True:" } else { "try:" });
                 } else {
                     w.ln("");
                 }
@@ -372,6 +381,10 @@ pub fn render(items: &[Item]) -> Rendered {
                     w.ln(&format!("{}    yield 1", ind));
                 } else {
                     w.ln(&format!("{}    return 1", ind));
+                }
+                if guarded && f.func.len() % 2 == 1 {
+                    w.ln("except ImportError:");
+                    w.ln("    pass");
                 }
             }
             Item::Test(t) => {
